@@ -103,6 +103,68 @@ theorem Enabled.frequency {sk sk' : Sketch} {on on' : Bool} (h : Enabled sk on s
   · rw [h3, hoff h1]
     exact Sketch.frequency_init cap x
 
+/-- The hashes of the lookups (`get`) of a history, in order. -/
+def getHashes (p : Params) (h : List Op) : List UInt64 :=
+  h.filterMap (fun op => match op with
+    | .get k => some (p.hash k)
+    | _ => none)
+
+theorem getHashes_cons_get (p : Params) (k : Nat) (h : List Op) :
+    getHashes p (.get k :: h) = p.hash k :: getHashes p h := rfl
+
+theorem getHashes_cons_of_not_get (p : Params) (op : Op) (h : List Op) (hop : ∀ k, op ≠ .get k) :
+    getHashes p (op :: h) = getHashes p h := by
+  cases op <;> first | rfl | exact absurd rfl (hop _)
+
+/-- What the sketch of a cache is, given the sequence `hs` of hashes that have been handed to
+it so far: still off and empty, or switched on at some point (`hs = pre ++ post`) as a freshly
+sized sketch that has since recorded exactly `post`, in order, each hash once. -/
+def Recorded (P : Sketch → Prop) (sk : Sketch) (on : Bool) (hs : List UInt64) : Prop :=
+  (on = false ∧ sk = {}) ∨
+  ∃ pre post cap, hs = pre ++ post ∧ on = true ∧ P (Sketch.init cap) ∧
+    sk = Sketch.feed false (Sketch.init cap) post
+
+theorem Recorded.init (P : Sketch → Prop) : Recorded P {} false [] := Or.inl ⟨rfl, rfl⟩
+
+/-- Feeding more hashes. -/
+theorem Recorded.feed {P : Sketch → Prop} {sk : Sketch} {on : Bool} {hs : List UInt64}
+    (h : Recorded P sk on hs) (more : List UInt64) :
+    Recorded P (Sketch.feed false sk more) on (hs ++ more) := by
+  rcases h with ⟨h1, h2⟩ | ⟨pre, post, cap, h1, h2, h3, h4⟩
+  · exact Or.inl ⟨h1, by rw [h2, Sketch.feed_default]⟩
+  · refine Or.inr ⟨pre, post ++ more, cap, by rw [h1, List.append_assoc], h2, h3, ?_⟩
+    rw [h4, Sketch.feed_append]
+
+/-- Possibly switching the sketch on. -/
+theorem Recorded.enabled {P : Sketch → Prop} {sk sk' : Sketch} {on on' : Bool}
+    {hs : List UInt64} (h : Recorded P sk on hs) (he : Enabled sk on sk' on') (hp : P sk') :
+    Recorded P sk' on' hs := by
+  rcases he with ⟨e1, e2⟩ | ⟨e1, e2, cap, e3⟩
+  · rw [e1, e2]; exact h
+  · rcases h with ⟨_, h2⟩ | ⟨_, _, _, _, h2, _⟩
+    · have e4 : sk' = Sketch.init cap := by rw [e3, h2]; rfl
+      exact Or.inr ⟨hs, [], cap, (List.append_nil _).symm, e2, e4 ▸ hp, e4⟩
+    · rw [e1] at h2; cases h2
+
+/-- The recording as a run of the sketch model (`Props/C14.lean` speaks about such runs). -/
+theorem Recorded.run {sk : Sketch} {on : Bool} {hs : List UInt64}
+    (h : Recorded Sketch.Good sk on hs) :
+    (on = false ∧ sk = {}) ∨
+    ∃ pre post cap g, hs = pre ++ post ∧ on = true ∧
+      Sketch.runG (Sketch.init cap, Sketch.ghost0) post = .ok (sk, g) := by
+  rcases h with h | ⟨pre, post, cap, h1, h2, h3, h4⟩
+  · exact Or.inl h
+  · refine Or.inr ⟨pre, post, cap, ?_⟩
+    have hr := (Sketch.feed_ok sketchLaws post h3).1
+    rw [← Sketch.run_eq_foldlM, ← h4, Sketch.run_of_runG _ Sketch.ghost0] at hr
+    cases hg : Sketch.runG (Sketch.init cap, Sketch.ghost0) post with
+    | error e => rw [hg] at hr; cases hr
+    | ok st =>
+      rw [hg] at hr
+      obtain ⟨s1, g⟩ := st
+      simp only [Except.ok.injEq] at hr
+      exact ⟨g, h1, h2, by rw [hr]⟩
+
 namespace Unsync
 namespace SkF
 
@@ -527,6 +589,42 @@ theorem step_get (p : Params) (s : UState) (k : Nat) (hf : s.fault = none) :
   have h3 := maintain_sk p s
   exact ⟨h1.1.trans h2.1, (h1.2.trans h2.2).trans h3.2⟩
 
+/-! ### whole histories -/
+
+theorem step_recorded {P : Sketch → Prop} (L : SketchLaws P) {p : Params} (hq : NoQuirks p)
+    (hsm : SmallSketch p) {s : UState} (hi : Inv P p s) (op : Op) {hs : List UInt64}
+    (hr : Recorded P s.sk s.skOn hs) :
+    Recorded P (step p s op).1.sk (step p s op).1.skOn (hs ++ getHashes p [op]) := by
+  have hi' := step_inv L hq hsm hi op
+  by_cases hop : ∀ k, op ≠ .get k
+  · rw [getHashes_cons_of_not_get p op [] hop]
+    show Recorded P _ _ (hs ++ [])
+    rw [List.append_nil]
+    exact hr.enabled (step_en p s op hop) hi'.sk
+  · have : ∃ k, op = .get k := by
+      cases op <;> first | exact ⟨_, rfl⟩ | exact absurd (fun k hk => by cases hk) hop
+    obtain ⟨k, rfl⟩ := this
+    have hd5 : p.q.d5 = false := by rw [hq]
+    obtain ⟨h1, h2⟩ := step_get p s k hi.inv.struct.noFault
+    rw [hd5, (maintain_sk p s).1] at h1
+    rw [h1, h2]
+    exact hr.feed [p.hash k]
+
+theorem runState_recorded {P : Sketch → Prop} (L : SketchLaws P) {p : Params} (hq : NoQuirks p)
+    (hsm : SmallSketch p) (h : List Op) : ∀ {s : UState} {hs : List UInt64}, Inv P p s →
+      Recorded P s.sk s.skOn hs →
+      Recorded P (runState p s h).sk (runState p s h).skOn (hs ++ getHashes p h) := by
+  induction h with
+  | nil => intro s hs _ hr; rw [show getHashes p [] = [] from rfl, List.append_nil]; exact hr
+  | cons op rest ih =>
+    intro s hs hi hr
+    have h1 := ih (step_inv L hq hsm hi op) (step_recorded L hq hsm hi op hr)
+    have e : getHashes p (op :: rest) = getHashes p [op] ++ getHashes p rest := by
+      show List.filterMap _ ([op] ++ rest) = _
+      rw [List.filterMap_append]; rfl
+    rw [e, ← List.append_assoc]
+    exact h1
+
 end SkF
 end Unsync
 namespace Sync
@@ -907,6 +1005,69 @@ theorem reachable_ok {P : Sketch → Prop} (L : SketchLaws P) {p : Params} (hq :
   · exact hf
   · have := stateAfter_hang p h qinv_init hf
     cases this
+
+/-! ### whole histories -/
+
+theorem newReads_hash (p : Params) (s : SState) (op : Op) (hf : s.fault = none) :
+    (newReads p s op).map ROp.hash = getHashes p [op] := by
+  by_cases hop : ∀ k, op ≠ .get k
+  · rw [newReads_of_not_get p s op hop, getHashes_cons_of_not_get p op [] hop]; rfl
+  · have : ∃ k, op = .get k := by
+      cases op <;> first | exact ⟨_, rfl⟩ | exact absurd (fun k hk => by cases hk) hop
+    obtain ⟨k, rfl⟩ := this
+    rw [newReads_get p s k hf]
+    show [(readOf p s k).hash] = [p.hash k]
+    rw [readOf_hash]
+
+/-- Reachable states of the current code between two calls of the one thread. -/
+structure Reach (P : Sketch → Prop) (s : SState) : Prop where
+  top : TopInv P s
+  q : QInv s
+
+theorem reach_init {P : Sketch → Prop} (L : SketchLaws P) : Reach P {} :=
+  ⟨init_inv L, qinv_init⟩
+
+theorem step_reach {P : Sketch → Prop} (L : SketchLaws P) {p : Params} (hq : NoQuirks p)
+    (hsm : SmallSketch p) {s : SState} (h : Reach P s) (op : Op) : Reach P (step p s op).1 := by
+  obtain ⟨h1, h2, _⟩ := Nodes.step_inv L hq hsm h.top op
+  obtain ⟨h3, h4⟩ := step_qinv p h.q op
+  refine ⟨⟨h1, ?_⟩, h3⟩
+  rcases h2 with hf | hf
+  · exact hf
+  · have := h4 hf
+    rw [h.top.nofault] at this
+    cases this
+
+/-- The hashes `hs` handed to the cache so far are those already applied to the sketch followed
+by those still waiting in the read queue. -/
+def RecQ (P : Sketch → Prop) (s : SState) (hs : List UInt64) : Prop :=
+  ∃ applied, hs = applied ++ s.readQ.map ROp.hash ∧ Recorded P s.sk s.skOn applied
+
+theorem step_recQ {P : Sketch → Prop} (L : SketchLaws P) {p : Params} (hq : NoQuirks p)
+    (hsm : SmallSketch p) {s : SState} (h : Reach P s) (op : Op) {hs : List UInt64}
+    (hr : RecQ P s hs) : RecQ P (step p s op).1 (hs ++ getHashes p [op]) := by
+  have h' := step_reach L hq hsm h op
+  have hd5 : p.q.d5 = false := by rw [hq]
+  obtain ⟨applied, e1, r1⟩ := hr
+  obtain ⟨d, r, e2, _, e3, e4⟩ := step_drain p h.q op
+  rw [hd5] at e4
+  refine ⟨applied ++ d.map ROp.hash, ?_, (r1.feed _).enabled e4 h'.top.sk.sk⟩
+  rw [e1, e2, e3, ← newReads_hash p s op h.top.nofault]
+  simp only [List.map_append, List.append_assoc]
+
+theorem stateAfter_recQ {P : Sketch → Prop} (L : SketchLaws P) {p : Params} (hq : NoQuirks p)
+    (hsm : SmallSketch p) (h : List Op) : ∀ {s : SState} {hs : List UInt64}, Reach P s →
+      RecQ P s hs → RecQ P (stateAfter p s h) (hs ++ getHashes p h) := by
+  induction h with
+  | nil => intro s hs _ hr; rw [show getHashes p [] = [] from rfl, List.append_nil]; exact hr
+  | cons op rest ih =>
+    intro s hs hi hr
+    have h1 := ih (step_reach L hq hsm hi op) (step_recQ L hq hsm hi op hr)
+    have e : getHashes p (op :: rest) = getHashes p [op] ++ getHashes p rest := by
+      show List.filterMap _ ([op] ++ rest) = _
+      rw [List.filterMap_append]; rfl
+    rw [e, ← List.append_assoc]
+    exact h1
 
 end SkF
 end Sync
